@@ -65,6 +65,7 @@ func init() {
 			c.rulesC04dup()
 			c.rulesC04drop()
 			c.rulesR3queue()
+			c.rulesR4qdone()
 		}
 	})
 	register("C05", propInfo{
@@ -122,6 +123,7 @@ func init() {
 			c.rulesC06reuse()
 			c.rulesR3subs()
 			c.rulesR4scanall()
+			c.rulesR4qdone()
 			c.rulesR3misc("C06")
 			c.rulesR3flush()
 			c.rulesR3whentime()
@@ -284,6 +286,7 @@ func init() {
 		c.rulesR3ask()
 		c.rulesR3bounds()
 		c.rulesR4scanall()
+		c.rulesR4qdone()
 		c.rulesR4clone()
 		c.rulesR3helpers()
 		c.rulesR3batch3("C20")
